@@ -680,27 +680,34 @@ structure OsuOut (R : Type) where
   effectiveMissCount : R
   speedDeviation : Option R
 
-/-- multiplier and relax adjustment of `OsuPerformanceCalculator::calculate`:
-`(multiplier, effective_miss_count)` -/
-def osuMultiplierAndMisses (c : OsuCalc R) : R × R :=
+/-- `multiplier` of `OsuPerformanceCalculator::calculate` (NF and SO penalties) -/
+def osuMultiplier (c : OsuCalc R) : R :=
   let totalHits : R := ofNat c.state.totalHits
   let multiplier : R := 1.15
   let multiplier :=
     if c.mods.nf then multiplier * fmax (1.0 - 0.02 * c.effectiveMissCount) 0.9 else multiplier
-  let multiplier :=
-    if c.mods.so && lt 0.0 totalHits then
-      multiplier * (1.0 - powf (ofNat c.attrs.nSpinners / totalHits) 0.85)
-    else multiplier
-  let emc :=
-    if c.mods.rx then
-      let od := c.attrs.od
-      let (n100Mult, n50Mult) : R × R :=
-        if lt 0.0 od then
-          (fmax (1.0 - powf (od / 13.33) 1.8) 0.0, fmax (1.0 - powf (od / 13.33) 5.0) 0.0)
-        else (1.0, 1.0)
-      fmin (c.effectiveMissCount + ofNat c.state.n100 * n100Mult + ofNat c.state.n50 * n50Mult) totalHits
-    else c.effectiveMissCount
-  (multiplier, emc)
+  if c.mods.so && lt 0.0 totalHits then
+    multiplier * (1.0 - powf (ofNat c.attrs.nSpinners / totalHits) 0.85)
+  else multiplier
+
+/-- `(n100_mult, n50_mult)` of the relax branch -/
+def osuRelaxMultipliers (od : R) : R × R :=
+  if lt 0.0 od then
+    (fmax (1.0 - powf (od / 13.33) 1.8) 0.0, fmax (1.0 - powf (od / 13.33) 5.0) 0.0)
+  else (1.0, 1.0)
+
+/-- `self.effective_miss_count` after the `if self.mods.rx() { … }` block -/
+def osuRelaxMisses (c : OsuCalc R) : R :=
+  let totalHits : R := ofNat c.state.totalHits
+  if c.mods.rx then
+    let od := c.attrs.od
+    let mults := osuRelaxMultipliers od
+    fmin (c.effectiveMissCount + ofNat c.state.n100 * mults.1 + ofNat c.state.n50 * mults.2) totalHits
+  else c.effectiveMissCount
+
+/-- multiplier and relax adjustment of `OsuPerformanceCalculator::calculate`:
+`(multiplier, effective_miss_count)` -/
+def osuMultiplierAndMisses (c : OsuCalc R) : R × R := (osuMultiplier c, osuRelaxMisses c)
 
 def osuMultiplierAndMissesDom (c : OsuCalc R) : Bool :=
   let totalHits : R := ofNat c.state.totalHits
